@@ -879,7 +879,11 @@ def cached_fuse_block_info(self, axes_groups):
         # possibly trim cache
         if len(_fuseinfos) > _fuseinfo_cache_maxsize:
             # cache is full, remove the oldest entry
-            _fuseinfos.popitem(last=False)
+            try:
+                _fuseinfos.popitem(last=False)
+            except KeyError:
+                # another thread already evicted it
+                pass
         global _fi_missed
         _fi_missed += 1
 
